@@ -71,8 +71,9 @@ def models(tier):
     # long silences between requests (per-peer bookkeeping that ages out must not cost a request)
     ls = copy.deepcopy(CFG3)
     ls["node"].update({"idle_timeout": 100_000, "wakeup": 50})
-    out.append(monitors.ScenarioModel("long-silences", ls, [("m", 0, "rq:3:own"), ("m", 0, "rq:9:own"), ("m", 0, "dwr"), ("tick", 1001), ("tick", 61), ("ans", 0)],
-                                      MONS, max_socks=1, prelude=[("accept",), ("m", 0, "cer_p0"), ("m", 0, "rq:3:own")]))
+    out.append(monitors.ScenarioModel("long-silences", ls, [("m", 0, "rq:3:own"), ("m", 0, "rq:9:own"), ("m", 0, "dwr"), ("tick", 1001), ("tick", 600), ("ans", 0)],
+                                      MONS, max_socks=1, prelude=[("accept",), ("m", 0, "cer_p0"), ("m", 0, "rq:3:own"), ("m", 0, "rq:9:own")]))
+    out[-1].key_time = True
     # requests arriving while the connection is in the second ready sub-state (DWR sent, DWA outstanding)
     wd = copy.deepcopy(CFG3)
     wd["node"].update({"idle_timeout": 2, "dwa_timeout": 30, "wakeup": 1})
